@@ -78,7 +78,10 @@ def gen_history(ch: Choices, known: dict):
             cfg = gen.gen_config(ch, models[m]) if ch.chance(1, 2, "cfg.random") else dict(gen.DEFAULT_CONFIG)
             reuse = m in used_models and ch.chance(2, 3, "reuse_problem")
             if kind == "find_all":
-                ops.append({"kind": kind, "model": m, "cfg": cfg, "reuse_problem": reuse})
+                o = {"kind": kind, "model": m, "cfg": cfg, "reuse_problem": reuse}
+                if ch.chance(1, 4, "small_stack"):
+                    o["height"] = 2 + ch.choose(5, "height")  # a capacity error must be the same error in both modes
+                ops.append(o)
                 used_models.add(m)
             elif kind == "new_solver":
                 name = f"s{k}"
